@@ -1106,6 +1106,55 @@ func runT6(p *an.Prog, r *an.Result) {
 			r.Bad(name, "the exclusion expression is not built from the tag-right delimiter", c.Pos(), "what a tag's arguments may not contain must be derived from the delimiter that ends the tag")
 		}
 	}
+	// the tag's name cannot swallow the hyphen of a trim marker: the first group of the tag alternative
+	// matches no '-' (a name group like [\w-]+ turns {% endif-%} into the unknown tag "endif-")
+	if tp := theTokenPat(p); tp.problem == "" {
+		for _, alt := range tp.alts {
+			if len(alt.delims) == 0 || alt.delims[0] != 2 || len(alt.groups) == 0 {
+				continue
+			}
+			nameCap := alt.groups[0]
+			for _, g := range alt.groups {
+				if g < nameCap {
+					nameCap = g
+				}
+			}
+			matchesHyphen := false
+			var find func(x *syntax.Regexp, inside bool)
+			find = func(x *syntax.Regexp, inside bool) {
+				if x.Op == syntax.OpCapture && x.Cap == nameCap {
+					inside = true
+				}
+				if inside {
+					switch x.Op {
+					case syntax.OpLiteral:
+						for _, rn := range x.Rune {
+							if rn == '-' {
+								matchesHyphen = true
+							}
+						}
+					case syntax.OpCharClass:
+						for i := 0; i+1 < len(x.Rune); i += 2 {
+							if x.Rune[i] <= '-' && '-' <= x.Rune[i+1] {
+								matchesHyphen = true
+							}
+						}
+					case syntax.OpAnyChar, syntax.OpAnyCharNotNL:
+						matchesHyphen = true
+					}
+				}
+				for _, sub := range x.Sub {
+					find(sub, inside)
+				}
+			}
+			find(alt.node, false)
+			if matchesHyphen {
+				r.Bad(name, "the tag-name group can match a hyphen", an.FuncPos(fn), "the group that captures a tag's name can consume '-': a trim marker written directly after the name ({% endif-%}) becomes part of the name, and a well-nested template is rejected with an unknown or unterminated tag")
+			} else {
+				r.OK(name, "the tag-name group matches no hyphen", an.FuncPos(fn), "")
+			}
+		}
+	}
 	// whitespace around contents is optional: \s* after the opening and before the closing delimiter in both alternatives
 	if strings.Count(format, `-?\s*`) >= 2 && strings.Count(format, `\s*-?`) >= 2 {
 		r.OK(name, "optional whitespace and hyphen inside both delimiters", an.FuncPos(fn), "")
